@@ -12,6 +12,7 @@ import InToto.Proofs.Record
 import InToto.Generated.Facts
 import InToto.Model.SchemaFacts
 import InToto.Proofs.Walk
+import InToto.Proofs.Snapshots
 
 namespace InToto.C13
 open InToto InToto.Record InToto.RecordProofs InToto.WalkProofs
@@ -116,5 +117,29 @@ theorem unhashable_file_fails_the_walk (cfg : Cfg) (fuel : Nat) (path : Str) (no
 theorem walk_never_runs_out_of_fuel (cfg : Cfg) (fuel : Nat) (path : Str) (node : Node) (acc : ArtMap)
     (hf : 2 * nodeSize node + 2 ≤ fuel) : visit cfg fuel path node acc ≠ .err "depth" :=
   visit_fuel_suffices cfg fuel path node acc hf
+
+/-- C13 (materials are recorded BEFORE the command): whatever the command does -/
+theorem materials_are_the_directory_before (fs : Verify.FS) (sets : List (Str × Str)) (dels : List Str) :
+    (Verify.runStep fs sets dels).materials = fs := rfl
+
+/-- C13 (products are recorded AFTER the command): a file the command deleted is not reported, … -/
+theorem deleted_file_is_not_a_product (fs : Verify.FS) (sets : List (Str × Str)) (dels : List Str) (p : Str) (h : p ∈ dels) :
+    lookup p (Verify.runStep fs sets dels).products = none := by
+  unfold Verify.runStep Verify.applyEffect
+  rw [SnapProofs.lookup_dels]; simp [h]
+
+/-- … a file it wrote is reported with the content of the LAST write, … -/
+theorem written_file_reports_last_content (fs : Verify.FS) (pre post : List (Str × Str)) (dels : List Str) (p d : Str)
+    (hd : p ∉ dels) (h : p ∉ post.map Prod.fst) :
+    lookup p (Verify.runStep fs (pre ++ (p, d) :: post) dels).products = some d := by
+  unfold Verify.runStep Verify.applyEffect
+  rw [SnapProofs.lookup_dels, SnapProofs.lookup_sets_last pre post fs p d h]; simp [hd]
+
+/-- … and a file it did not touch is reported exactly as it was before -/
+theorem untouched_file_reported_unchanged (fs : Verify.FS) (sets : List (Str × Str)) (dels : List Str) (p : Str)
+    (hd : p ∉ dels) (h : p ∉ sets.map Prod.fst) :
+    lookup p (Verify.runStep fs sets dels).products = lookup p fs := by
+  unfold Verify.runStep Verify.applyEffect
+  rw [SnapProofs.lookup_dels, SnapProofs.lookup_sets_untouched sets fs p h]; simp [hd]
 
 end InToto.C13
